@@ -13,7 +13,7 @@ CONSTANTS
   Types <- MCTypes
   IntW = 2
   MaxCache = 1
-  Mut = "cacheview"
+  Mut = "chaosacl"
 VIEW view
 CHECK_DEADLOCK FALSE
-INVARIANT CacheClean
+INVARIANT DeniedGetsNothing
